@@ -8,6 +8,7 @@ pub mod c19;
 pub mod c20;
 pub mod c20_sigs;
 pub mod cal;
+pub mod c02;
 pub mod c03;
 pub mod c04;
 pub mod c06;
@@ -30,6 +31,7 @@ pub fn dispatch(prop: &str, run: &mut Run) {
         "C18" => c18::run(run),
         "C19" => c19::run(run),
         "C01" => c01::run(run),
+        "C02" => c02::run(run),
         "C03" => c03::run(run),
         "C04" => c04::run(run),
         "C06" => c06::run(run),
